@@ -87,7 +87,7 @@ theorem com_in_hull (wgt : ℤ → ℤ → ℚ) (n m : ℤ) (hw : ∀ y x, 0 ≤
 /-- **the refined position is within `r ≤ 2` px of the integer centre** (per axis): with
 `com ∈ [0, 2r]`, `refined = c + com − r ∈ [c − r, c + r]` -/
 theorem refine_within_r (c r : ℤ) (com : ℚ) (hr : 0 ≤ r ∧ r ≤ 2) (hcom : 0 ≤ com ∧ com ≤ (2 * r + 1 : ℤ) - 1) :
-    |Gen.refined_coord c com r - (c : ℚ)| ≤ (r : ℚ) ∧ (r : ℚ) ≤ 2 := by
+    |Model.refined_coord c com r - (c : ℚ)| ≤ (r : ℚ) ∧ (r : ℚ) ≤ 2 := by
   rw [C03.refined_formula]
   constructor
   · rw [abs_le]
@@ -139,28 +139,28 @@ theorem com_total_pos (cut : ℤ → ℤ → ℚ) (n m cy cx y0 x0 : ℤ)
 model's `refineCenter`) -/
 theorem refineCenter_within (corr : ℤ → ℤ → ℚ) (h w cy cx : ℤ) (hy : 0 ≤ cy ∧ cy < h) (hx : 0 ≤ cx ∧ cx < w)
     (hfirst : ∀ y x : ℤ, 0 ≤ y → y < h → 0 ≤ x → x < w → y < cy → corr y x < corr cy cx) :
-    |(refineCenter corr h w cy cx Gen.refine_radius).1 - (cy : ℚ)| ≤ 2 ∧
-    |(refineCenter corr h w cy cx Gen.refine_radius).2 - (cx : ℚ)| ≤ 2 := by
+    |(refineCenter corr h w cy cx Model.refine_radius).1 - (cy : ℚ)| ≤ 2 ∧
+    |(refineCenter corr h w cy cx Model.refine_radius).2 - (cx : ℚ)| ≤ 2 := by
   unfold refineCenter
   simp only []
   have hb := C03.refine_cut_in_bounds cy cx h w hy hx
   simp only [] at hb
-  set r := Gen.refine_r Gen.refine_radius cy cx h w with hr
-  by_cases hg : Gen.refine_guard r = true
+  set r := Model.refine_r Model.refine_radius cy cx h w with hr
+  by_cases hg : Model.refine_guard r = true
   · rw [if_pos hg]
     simp
   · rw [if_neg hg]
-    have hgf : Gen.refine_guard r = false := by simpa using hg
+    have hgf : Model.refine_guard r = false := by simpa using hg
     obtain ⟨hr0, hr2, hcut⟩ := hb
     obtain ⟨hly, hhy, hlx, hhx, hny, hnx⟩ := hcut hgf
     have hrpos : 1 ≤ r := by
-      unfold Gen.refine_guard at hgf
+      unfold Model.refine_guard at hgf
       simp only [decide_eq_false_iff_not, not_le] at hgf
       omega
     simp only [hny, hnx]
-    set cut : ℤ → ℤ → ℚ := fun y x => corr (Gen.cut_lo cy r + y) (Gen.cut_lo cx r + x) with hcutdef
-    have hlo_y : Gen.cut_lo cy r = cy - r := rfl
-    have hlo_x : Gen.cut_lo cx r = cx - r := rfl
+    set cut : ℤ → ℤ → ℚ := fun y x => corr (Model.cut_lo cy r + y) (Model.cut_lo cx r + x) with hcutdef
+    have hlo_y : Model.cut_lo cy r = cy - r := rfl
+    have hlo_x : Model.cut_lo cx r = cx - r := rfl
     have hpos := com_total_pos cut (2 * r + 1) (2 * r + 1) r r 0 0
       ⟨⟨by omega, by omega⟩, ⟨by omega, by omega⟩⟩ ⟨⟨by omega, by omega⟩, ⟨by omega, by omega⟩⟩ (by
         simp only [hcutdef, hlo_y, hlo_x]
@@ -377,9 +377,9 @@ theorem elev_nonneg (height v d2 : ℚ) (hd : 0 < d2) : 0 ≤ (height - v) ^ 2 /
 /-- **the elevation is finite**: a map with at least 4 rows has, for every position inside it, a row
 at distance ≥ 1.5 = `r_min` (so the minimum over pixels is taken over a non-empty set) -/
 theorem elev_domain_nonempty (h : ℤ) (py : ℚ) (hh : 4 ≤ h) (hp : 0 ≤ py ∧ py ≤ (h : ℚ) - 1) :
-    ∃ y : ℤ, (0 ≤ y ∧ y < h) ∧ Gen.elev_rmin * Gen.elev_rmin ≤ ((y : ℚ) - py) ^ 2 := by
+    ∃ y : ℤ, (0 ≤ y ∧ y < h) ∧ Model.elev_rmin * Model.elev_rmin ≤ ((y : ℚ) - py) ^ 2 := by
   have hq : (4 : ℚ) ≤ (h : ℚ) := by exact_mod_cast hh
-  unfold Gen.elev_rmin
+  unfold Model.elev_rmin
   by_cases hlow : py ≤ ((h : ℚ) - 1) / 2
   · refine ⟨h - 1, ⟨by omega, by omega⟩, ?_⟩
     push_cast
@@ -434,11 +434,11 @@ theorem upsample_only_refined :
 /-- kernel index safety is inherited: cropping never reads or writes out of bounds (C13) and the
 refinement cut-out stays inside the map (C03.refine_cut_in_bounds) -/
 theorem kernels_in_bounds (y x h w : ℤ) (hy : 0 ≤ y ∧ y < h) (hx : 0 ≤ x ∧ x < w) :
-    Gen.refine_guard (Gen.refine_r Gen.refine_radius y x h w) = false →
-      0 ≤ Gen.cut_lo y (Gen.refine_r Gen.refine_radius y x h w) ∧
-      Gen.cut_hi y (Gen.refine_r Gen.refine_radius y x h w) ≤ h ∧
-      0 ≤ Gen.cut_lo x (Gen.refine_r Gen.refine_radius y x h w) ∧
-      Gen.cut_hi x (Gen.refine_r Gen.refine_radius y x h w) ≤ w := by
+    Model.refine_guard (Model.refine_r Model.refine_radius y x h w) = false →
+      0 ≤ Model.cut_lo y (Model.refine_r Model.refine_radius y x h w) ∧
+      Model.cut_hi y (Model.refine_r Model.refine_radius y x h w) ≤ h ∧
+      0 ≤ Model.cut_lo x (Model.refine_r Model.refine_radius y x h w) ∧
+      Model.cut_hi x (Model.refine_r Model.refine_radius y x h w) ≤ w := by
   intro hg
   have := (C03.refine_cut_in_bounds y x h w hy hx).2.2 hg
   exact ⟨this.1, this.2.1, this.2.2.1, this.2.2.2.1⟩
